@@ -6,12 +6,13 @@
 # Everything under /tmp/mut is removed at the end.
 set -u
 LANES="$1"; LIST="$(readlink -f "$2")"; TIER="${3:-quick}"
+SRC="${VERIF_SRC:-/verif}"   # which copy of the machinery to run (an older checkout for 'as it stood' runs)
 OUT=/verif/work/mutants; mkdir -p "$OUT"
 setup_lane() {
   local k="$1" d="/tmp/mut/lane$1"
   rm -rf "$d"; mkdir -p "$d"
   git -C /repo worktree add -q --detach "$d/repo" HEAD || exit 2
-  rsync -a --exclude 'target*' --exclude work --exclude .git --exclude 'fuzz/target' --exclude 'fuzz/artifacts' /verif/ "$d/verif/"
+  rsync -a --exclude 'target*' --exclude work --exclude .git --exclude 'fuzz/target' --exclude 'fuzz/artifacts' "$SRC/" "$d/verif/"
   sed -i "s#path = \"/repo/cozy-chess\"#path = \"$d/repo/cozy-chess\"#" "$d/verif/harness/Cargo.toml"
 }
 run_lane() {
